@@ -16,6 +16,7 @@ class Unit:
     monad = ""
     get, modify, panic, assert_, usub, lift_opt = "RM.get", "RM.modify", "RM.panic", "RM.assert", "RM.usub", "RM.liftOpt"
     uadd = "RM.uadd"            # checked usize addition (units with `checked_add`)
+    umul = "RM.umul"            # checked usize multiplication (units with `checked_mul`)
     state_vars = {"self"}
     state_subobjects = set()
     state_types = ()
